@@ -15,6 +15,7 @@ from vlib.model import enc, dec
 PROPERTY = "C20"
 LEVEL = "exploration"
 SHARDS = {"quick": 16, "thorough": 16}
+BUDGET_S = {"thorough": 2400}      # the thorough tier explores sets until this many seconds have passed (sets seen are in the evidence)
 RULE = ("seeded sets of 1-3 small documents over tiny value pools (hits are frequent; int / float look-alikes 2 / 2.0, 1 / 1.0), "
         "in a quarter of the sets plus a second revision (same ids, partly other content) of one of them, exported with "
         "rdf_subclassing=False; queries over 1-3 attributes of one kind and queries spanning Document+Section, "
@@ -500,9 +501,11 @@ def run(ctx):
         docs = gen_docs(rng)
         case = {"specs": [enc(d) for d in docs], "queries": gen_queries(rng, docs, ctx.pick(8, 10)), "i": i}
         run_case(case, ctx)
+        rec.count("workload", "document-sets-run")
         if i < 2:
             rec.sample({"queries": case["queries"][:3]})
         if ctx.time_left() < 0:
+            rec.count("workload", "shards-stopped-by-the-time-budget")
             break
     # every attribute name of the RDF model builds a query
     if ctx.shard == 0:
